@@ -15,7 +15,8 @@
      seqev    event sequence of [bfs_seq]
      parsched [par_step] under a schedule built from the winners reproduces the
               implementation's next frontier (node, pred) exactly
-     orderev / rootsev   item sequences of [bfs_order] / [bfs_from_roots] *)
+     orderev / rootsev   item sequences of [bfs_order] / [bfs_from_roots]
+     permev   the permutation stored by the command-line `perm bfs` = positions in [bfs_order] *)
 open Model
 type string = Stdlib.String.t
 open Conv
@@ -253,6 +254,15 @@ let run (args : (string * string) list) : string =
         let m = bfs_order g in
         let ms = List.map (fun (((r, p), v), d) -> (int_of_n r, int_of_n p, int_of_n v, int_of_n d)) m in
         add "orderev" (ok_or (ms = items) "sequence-differs")
+      | "cliperm" ->
+        (* perm[node] = position of the node in the BfsOrder enumeration *)
+        let toks = split_on ',' es in
+        let perm = List.map (fun t -> int_of_string (String.sub t 1 (String.length t - 1))) toks in
+        add "perm" (ok_or (sorted perm = List.init n (fun x -> x)) "not-a-permutation");
+        let order = List.map (fun (((_, _), v), _) -> int_of_n v) (bfs_order g) in
+        let mp = Array.make n (-1) in
+        List.iteri (fun i v -> if v < n then mp.(v) <- i) order;
+        add "permev" (ok_or (Array.to_list mp = perm) "differs-from-model")
       | "fromroots" ->
         let toks = split_on ',' es in
         let m = bfs_from_roots g roots in
